@@ -129,6 +129,7 @@ type Run struct {
 	files map[string][]byte // host file-system model (C09 tokens file)
 	fsLog []string
 	fsCrashAt int
+	fs        *fsState
 
 	violation *Violation
 
